@@ -101,6 +101,9 @@ class SymDate:
     def __eq__(self, o): return self._c(o, lambda a, b: a == b) if isinstance(o, SymDate) else False
     def __hash__(self): return id(self)
 
+    # what DatedInterp reads (any affine function of the instant would do)
+    _mjd = property(lambda self: self.t)
+
     def __repr__(self):
         return f"SymDate({self.t!r})"
 
